@@ -362,6 +362,7 @@ def d_isvar(F, s):
 
 
 LOCKSTEP_PAIRS = {("context", "needles"), ("icontext", "ineedles")}
+LOCKSTEP_OK = False  # set by the caller once the LOCKSTEP obligations (C07) have been evaluated on this tree
 MUTATORS = ("::push", "::pop", "::clear", "::remove", "::retain", "::drain", "::truncate", "::extend", "::insert", "::append", "::split_off", "::swap_remove")
 
 
@@ -408,6 +409,8 @@ def d_len1(F, s):
                 continue
             if same:
                 return ("D-LEN1", "first element taken under `%s`" % show(f))
+            if not LOCKSTEP_OK:
+                continue
             return ("D-LEN1-LOCKSTEP", "first element of `%s` taken under `%s`; the two vectors are pushed in lockstep (LOCKSTEP lemma)" % (vname, show(f)))
     return None
 
